@@ -9,6 +9,7 @@ import (
 	"strings"
 
 	"verifharness/internal/common"
+	"verifharness/internal/appstream"
 	"verifharness/internal/commitstream"
 	"verifharness/internal/evmsyncstream"
 	"verifharness/internal/ledgerstream"
@@ -45,6 +46,9 @@ func main() {
 	driver := fs.String("driver", "", "path to rigodriver")
 	out := fs.String("out", "", "result json path")
 	replay := fs.String("replay", "", "replay file (operation lines)")
+	prop := fs.String("prop", "", "property whose monitors are reported (app stream)")
+	restarts := fs.Bool("restarts", false, "app stream: restart the node at random block boundaries")
+	checktx := fs.Bool("checktx", false, "app stream: interleave CheckTx calls")
 	_ = fs.Parse(os.Args[2:])
 	if *work == "" || *out == "" {
 		fmt.Fprintln(os.Stderr, "need -work and -out")
@@ -64,6 +68,8 @@ func main() {
 	switch stream {
 	case "ledger":
 		res = ledgerstream.Run(*seed, *tier, wd, *driver, rp)
+	case "app":
+		res = appstream.Run(*seed, *tier, wd, *driver, rp, appstream.Config{Prop: *prop, Restarts: *restarts, CheckTx: *checktx})
 	case "signer":
 		res = signerstream.Run(*seed, *tier, wd, *driver, rp)
 	case "rlp":
